@@ -11,11 +11,18 @@ import (
 	"github.com/CrowdStrike/csproto"
 	gogojson "github.com/gogo/protobuf/jsonpb"
 	gogoproto "github.com/gogo/protobuf/proto"
+	gogotypes "github.com/gogo/protobuf/types"
 	"github.com/golang/protobuf/jsonpb"
 	golangproto "github.com/golang/protobuf/proto"
 	"google.golang.org/protobuf/encoding/protojson"
 	"google.golang.org/protobuf/proto"
 	"google.golang.org/protobuf/reflect/protoreflect"
+	"google.golang.org/protobuf/types/known/durationpb"
+	"google.golang.org/protobuf/types/known/emptypb"
+	"google.golang.org/protobuf/types/known/fieldmaskpb"
+	"google.golang.org/protobuf/types/known/structpb"
+	"google.golang.org/protobuf/types/known/timestamppb"
+	"google.golang.org/protobuf/types/known/wrapperspb"
 
 	"verifharness/bridge"
 	"verifharness/monitor"
@@ -292,6 +299,32 @@ func runC18(cfg *config, res *monitor.Result) {
 		}
 		if err := csproto.JSONUnmarshaler(nil).UnmarshalJSON([]byte("{}")); err == nil {
 			res.Violate("C18:nil:unmarshal", "JSONUnmarshaler(nil) returned no error", nil)
+		}
+		// typed nil pointers of well-known types (some of them implement json.Marshaler/Unmarshaler themselves)
+		for _, typedNil := range []any{(*structpb.Struct)(nil), (*structpb.Value)(nil), (*structpb.ListValue)(nil), (*timestamppb.Timestamp)(nil),
+			(*durationpb.Duration)(nil), (*wrapperspb.StringValue)(nil), (*emptypb.Empty)(nil), (*fieldmaskpb.FieldMask)(nil),
+			(*gogotypes.Struct)(nil), (*gogotypes.Value)(nil), (*gogotypes.ListValue)(nil), (*gogotypes.Timestamp)(nil), (*gogotypes.StringValue)(nil)} {
+			evals += 2
+			name := fmt.Sprintf("%T", typedNil)
+			pi := monitor.Try(func() {
+				if b, err := csproto.JSONMarshaler(typedNil).MarshalJSON(); b != nil || err != nil {
+					res.Violate("C18:nil:marshal-typed-wkt", fmt.Sprintf("JSONMarshaler(nil %s) returned (%q, %v), documented (nil, nil)", name, b, err), map[string]any{"type": name})
+				}
+			})
+			if pi != nil {
+				res.Violate("C18:nil:panic-wkt:marshal", fmt.Sprintf("JSONMarshaler panicked on a nil %s: %s", name, pi.Value), map[string]any{"type": name})
+			}
+			pi = monitor.Try(func() {
+				for _, text := range []string{"{}", "null", "[]", `"x"`} {
+					if err := csproto.JSONUnmarshaler(typedNil).UnmarshalJSON([]byte(text)); err == nil {
+						res.Violate("C18:nil:unmarshal-typed-wkt", fmt.Sprintf("JSONUnmarshaler(nil %s) returned no error for %s", name, text), map[string]any{"type": name})
+					}
+				}
+			})
+			if pi != nil {
+				res.Violate("C18:nil:panic-wkt:unmarshal", fmt.Sprintf("JSONUnmarshaler panicked on a nil %s: %s", name, pi.Value), map[string]any{"type": name})
+			}
+			classes["nil-wkt/"+name]++
 		}
 		for _, t := range cfg.targets(false) {
 			typedNil := reflect.Zero(reflect.TypeOf(t.pkg.New(t.md.FullName()))).Interface()
